@@ -217,6 +217,8 @@ def grouper_of(case, sdf, window=None):
         return sdf.g % 2
     if k == "win":
         return window.g
+    if k == "ndarr":
+        return sdf.g.map_partitions(lambda s: s.values, sdf.g)      # a stream of plain numpy arrays, one array of keys per batch
     raise ValueError(k)
 
 
@@ -835,7 +837,7 @@ def params_for(rng, fam):
     elif fam in ("wgroupby-n", "wgroupby-t"):
         p["agg"] = rng.choice(WGROUPBY_AGGS)
         p["W"] = rng.choice([1, 2, 3, 4, 6]) if fam == "wgroupby-n" else rng.choice([1, 2, 3, 5])
-        p["grouper"] = rng.choice(GROUPERS + ["win"])
+        p["grouper"] = rng.choice(GROUPERS + ["win", "ndarr"])
     elif fam == "expanding":
         p["agg"] = rng.choice(EXP_AGGS)
     elif fam == "ewm":
